@@ -198,11 +198,11 @@ def searchWaveLoop (g : Geo) (all : List Nat) (bounds : Rect) (p : Pt) : Nat →
       let nb := (g.nbrs elt).filter fun n => all.contains n
       searchWaveLoop g all bounds p fuel (waveStep g bounds done' todo nb) done'
 
-def searchFuel (g : Geo) (elements : List Nat) : Nat := g.ncols + elements.length + 1
+def searchFuel (all elements : List Nat) : Nat := all.length + elements.length + 1
 
 /-- `leaf.search_wave(pos)` -/
 def searchWave (g : Geo) (all : List Nat) (leaf : QTree) (p : Pt) : Option Nat :=
-  searchWaveLoop g all leaf.bounds p (searchFuel g leaf.elements) leaf.elements []
+  searchWaveLoop g all leaf.bounds p (searchFuel all leaf.elements) leaf.elements []
 
 /-- `qtree.search(pos)` -/
 def QT.search (g : Geo) (q : QT) (p : Pt) : Option Nat :=
@@ -242,20 +242,28 @@ def fullSearch (g : Geo) (pos : Pt) (searchcols donecols : List Nat) (qtree : Op
     let nearcols := ((searchcols.filter fun c => g.nearPoint c pos).eraseDups).filter fun c => !donecols.contains c
     firstContaining g pos nearcols
 
+/-- `searchcols`: `self.columnlist` unless `columns` is given -/
+def searchCols (g : Geo) (a : Aids) : List Nat :=
+  match a.columns with
+  | none => List.range g.ncols
+  | some cs => cs
+
+/-- the body of `column_containing_point` inside `if inbounds:` -/
+def guessSearch (g : Geo) (pos : Pt) (searchcols : List Nat) (guess : Option Nat) (qtree : Option QT) : Option Nat :=
+  match guess with
+  | none => fullSearch g pos searchcols [] qtree
+  | some gu =>
+    if g.containsPoint gu pos then some gu
+    else
+      -- neighbours of the guess, sorted by distance from pos
+      let nearnbrcols := (g.nbrs gu).filter fun c => g.nearPoint c pos && searchcols.contains c
+      match firstContaining g pos nearnbrcols with
+      | some c => some c
+      | none => fullSearch g pos searchcols (gu :: nearnbrcols) qtree
+
 /-- `mulgrid.column_containing_point(pos, columns, guess, bounds, qtree)` -/
 def columnContainingPoint (g : Geo) (pos : Pt) (a : Aids) : Option Nat :=
-  if inBounds pos a.bounds then
-    let searchcols := match a.columns with | none => List.range g.ncols | some cs => cs
-    match a.guess with
-    | none => fullSearch g pos searchcols [] a.qtree
-    | some gu =>
-      if g.containsPoint gu pos then some gu
-      else
-        let nearnbrcols := (g.nbrs gu).filter fun c => g.nearPoint c pos && searchcols.contains c
-        match firstContaining g pos nearnbrcols with
-        | some c => some c
-        | none => fullSearch g pos searchcols (gu :: nearnbrcols) a.qtree
-  else none
+  if inBounds pos a.bounds then guessSearch g pos (searchCols g a) a.guess a.qtree else none
 
 /-! ### layers and blocks -/
 
